@@ -27,7 +27,12 @@ type Scenario struct {
 }
 
 type ExploreConfig struct {
-	Bound     int // max preemptions; <0 = unbounded
+	Bound     int // max preemptions (or delays); <0 = unbounded
+	// Delay selects delay bounding (Emmi, Qadeer, Rakamaric 2011): EVERY departure from the deterministic
+	// default scheduler costs one unit - also a switch at a blocking point to a thread other than the
+	// default one, and a non-default environment choice. The space with <= k delays is polynomial in the
+	// number of scheduling points, which keeps scenarios with ~10 threads enumerable.
+	Delay bool
 	MaxExecs  int64
 	Deadline  time.Time
 	Shard     int // this process explores subtrees with index%NShards == Shard
@@ -135,7 +140,7 @@ func Explore(sc *Scenario, cfg ExploreConfig) *Counter {
 			p := o.Points[i]
 			for alt := 1; alt < p.N; alt++ {
 				ac := cost
-				if p.Kind == 's' && p.CurEnabled {
+				if cfg.Delay || (p.Kind == 's' && p.CurEnabled) {
 					ac++
 				}
 				if cfg.Bound >= 0 && ac > cfg.Bound {
